@@ -10,7 +10,9 @@ ALIASES = {"FN_OK": r"CO_Tree::OK\(\) const", "FN_structure_OK": r"CO_Tree::stru
            "FN_insert_k": r"CO_Tree::insert\(unsigned long\)$",
            "FN_erase_k": r"CO_Tree::erase\(unsigned long\)$",
            "FN_rebuild_bigger_tree": r"CO_Tree::rebuild_bigger_tree\(\)", "FN_increase_keys_from": r"CO_Tree::increase_keys_from\(",
-           "FN_iter_inc": r"CO_Tree::iterator::operator\+\+\(\)$", "FN_rebalance": r"CO_Tree::rebalance\("}
+           "FN_iter_inc": r"CO_Tree::iterator::operator\+\+\(\)$", "FN_rebalance": r"CO_Tree::rebalance\(",
+           "FN_insert_precise": r"CO_Tree::insert_precise\(",
+           "FN_insert_hinted": r"CO_Tree::insert\(Parma_Polyhedra_Library::CO_Tree::iterator, unsigned long, __gmp_expr<.*> const&\)$"}
 def unit():
     return Unit("C16", "co_tree_cc", REPO + "/src/CO_Tree.cc", roots="re:^_ZNK?23Parma_Polyhedra_Library7CO_Tree", cut=["re:CO_Tree::dump_subtree"],
                 aliases=ALIASES, stubs=["common.c", "c16_gmp.c"])
@@ -63,6 +65,20 @@ def build(tier):
                       "FN_rebalance(&res, &t, &it, key, &val)",
                       harness_pre=tree_setup(rs) + "  G_k = gk; G_old = lookup(&t, gk); G_new_data = coef_of(&val); it.f0 = &t; it.f1 = leaf; it.f2 = 1; POOL_IDX_used = 0; POOL_DAT_used = 0;\n",
                       reach=[("whole tree redistributed", "res.f1 == %d" % ((rs + 1) // 2))], **kw))
+    for rs in [3, 7]:
+        bound = {"unwind": 2 * rs + 4, "note": "every well-formed tree of reserved_size %d, every hint; insert_precise() replaced by an ASSUMED (not discharged) contract, bisect_near() by its enforced contract" % rs}
+        kw = dict(bounded=bound, timeout=3400, object_bits=9, defs={"RS": rs, "CAP": 2 * rs + 1, "POOL_N": 2 * rs + 1}, split_post=True, mem_gb=30)
+        T.append(Task("insert_hinted/rs%d" % rs, u, "FN_insert_hinted", H, [Var("uint64_t", "key"), Var("uint64_t", "gk"), Var("uint64_t", "p"), Var("MPZ_T", "data"), Var("ITER_T", "res"), Var("ITER_T", "it")],
+                      "FN_insert_hinted(&res, &t, &it, key, &data)", replace=["FN_bisect_near", "FN_insert_precise"], assumed=["FN_insert_precise"],
+                      harness_pre=tree_setup(rs) + "  G_k = gk; G_p = p; __CPROVER_assume(p >= 1 && p <= %d); it.f0 = &G_idx[p]; it.f1 = &G_dat[p];\n  G_old = lookup(&t, gk); G_old_size = (int)t.f7; G_key_was_present = lookup(&t, key).present; G_new_data = coef_of(&data); POOL_IDX_used = 0; POOL_DAT_used = 0;\n" % (rs + 1),
+                      reach=[("new key", "!G_key_was_present"), ("replacement", "G_key_was_present"), ("hint is the end iterator", "G_p == %d" % (rs + 1))], **kw))
+    for rs in [3, 7]:
+        bound = {"unwind": 2 * rs + 4, "note": "every well-formed tree of reserved_size %d; insert_precise() replaced by an ASSUMED (not discharged) contract" % rs}
+        kw = dict(bounded=bound, timeout=3400, object_bits=9, defs={"RS": rs, "CAP": 2 * rs + 1, "POOL_N": 2 * rs + 1}, split_post=True, mem_gb=30)
+        T.append(Task("insert_key_data_modular/rs%d" % rs, u, "FN_insert_kd", H, [Var("uint64_t", "key"), Var("uint64_t", "gk"), Var("MPZ_T", "data"), Var("ITER_T", "res")],
+                      "FN_insert_kd(&res, &t, key, &data)", replace=["FN_insert_precise"], assumed=["FN_insert_precise"],
+                      harness_pre=tree_setup(rs) + "  G_k = gk; G_old = lookup(&t, gk); G_old_size = (int)t.f7; G_key_was_present = lookup(&t, key).present; G_new_data = coef_of(&data); POOL_IDX_used = 0; POOL_DAT_used = 0;\n",
+                      reach=[("new key", "!G_key_was_present"), ("replacement", "G_key_was_present")], **kw))
     for rs in [0]:
         bound = {"unwind": 2 * max(rs, 3) + 4, "note": "every well-formed tree of reserved_size %d, one operation (result capacity up to %d); loops unwound with unwinding assertions" % (rs, 2 * max(rs, 1) + 1)}
         kw = dict(bounded=bound, timeout=3000, object_bits=9, defs={"RS": rs, "CAP": 2 * max(rs, 3) + 1, "POOL_N": (2 * rs + 1) if rs else 3}, split_post=True, mem_gb=16)
